@@ -2,6 +2,7 @@
 //! usage: harness <check> <tier: quick|thorough> <seed> <outdir> [extra...]
 mod util;
 mod c12;
+mod c13;
 
 fn main() {
     let args: Vec<String> = std::env::args().collect();
@@ -17,6 +18,7 @@ fn main() {
     let extra = &args[5..];
     match args[1].as_str() {
         "c12" => c12::run(tier, seed, out, extra),
+        "c13" => c13::run(tier, seed, out, extra),
         other => {
             eprintln!("unknown check {other}");
             std::process::exit(2);
